@@ -20,12 +20,51 @@
 #define LOWER      (BR == 0 || BR == 2 || BR == 4)
 #define ASCENDING  (BR == 0 || BR == 3 || BR == 5)    /* supernodes 0..nsuper; else nsuper..0 */
 /* "same value" for floating point entries that were not written (NaN == NaN here: arithmetic on earlier entries may have produced one) */
-#if @cplx@
+#if CPLX
 #define SAMEV(a,b) (SAMER((a).r,(b).r) && SAMER((a).i,(b).i))
 #define ISZERO(a)  ((a).r == 0 && (a).i == 0)
 #else
 #define SAMEV(a,b) SAMER(a,b)
 #define ISZERO(a)  ((a) == 0)
 #endif
+/* NaN markers: POIS = "this x / work entry is poisoned" (real part NaN), ISNANV = "this matrix entry holds a NaN" */
+#if CPLX
+#define POIS(a)    ((a).r != (a).r)
+#define ISNANV(a)  ((a).r != (a).r || (a).i != (a).i)
+#else
+#define POIS(a)    ((a) != (a))
+#define ISNANV(a)  ((a) != (a))
+#endif
 #define SAMER(a,b) ((a) == (b) || ((a) != (a) && (b) != (b)))
+// "no entry is skipped": a universally chosen stored entry (position g_p of column g_c) that holds a NaN must leave a NaN in the x entry it updates
+#if BR == 0
+// L, no transpose: the entries below the diagonal of a single-column supernode (multi-column blocks go to the kernels); target row g_r
+#define PVALID (0 <= g_c && g_c < NN && !MULTI(SUPOF(g_c)) && NZB(SUPOF(g_c)) < g_p && g_p < NZB(SUPOF(g_c)) + NSUPR(SUPOF(g_c)))
+#define PVAL in_lval[g_p]
+#define PTARGET g_r
+#define PBIND (g_r == in_lsub[LB(SUPOF(g_c)) + (g_p - NZB(SUPOF(g_c)))])
+#define PCAP LUC
+#elif BR == 1
+// U, no transpose: every entry of U's column g_c; target row g_r = U_SUB(g_p)
+#define PVALID (0 <= g_c && g_c < NN && in_ucolbeg[g_c] <= g_p && g_p < in_ucolend[g_c])
+#define PVAL in_uval[g_p]
+#define PTARGET g_r
+#define PBIND (g_r == in_usub[g_p])
+#define PCAP UC
+#elif BR == 2 || BR == 4
+// L, transposed: every entry of column g_c below the diagonal block; target x[g_c]
+#define PVALID (0 <= g_c && g_c < NN && in_xlusup[g_c] + NSUPC(SUPOF(g_c)) <= g_p && g_p < in_xlusup_end[g_c])
+#define PVAL in_lval[g_p]
+#define PTARGET g_c
+#define PBIND 1
+#define PCAP LUC
+#else
+// U, transposed: every entry of U's column g_c; target x[g_c]
+#define PVALID (0 <= g_c && g_c < NN && in_ucolbeg[g_c] <= g_p && g_p < in_ucolend[g_c])
+#define PVAL in_uval[g_p]
+#define PTARGET g_c
+#define PBIND 1
+#define PCAP UC
+#endif
+#define PHYP (PVALID && ISNANV(PVAL))
 #endif
